@@ -4,6 +4,7 @@ import Pandora.Model.C08Chan
 import Pandora.Model.C08Mach
 import Pandora.Model.C08Fault
 import Pandora.Model.C08Pick
+import Pandora.Model.C08Size
 import Pandora.Spec.C08
 
 namespace Pandora.Drv.C08
@@ -45,6 +46,12 @@ structure Line where
   src : SrcKind := .file             -- generic JSON provider: the data source
   fileN : Nat := 0                   -- entries of the file (`n` = entries of one pass: the chosen ones)
   wts : Option (List Nat) := none    -- scenario kinds: the weights of the `fileN` scenarios
+  -- round 6: the size of an entry and the option that bounds it
+  pad : Nat := 0                     -- every entry is padded with this many bytes
+  big : Nat := 0                     -- … entry `bigat` (1-based; 0 = none) with this many more
+  bigat : Nat := 0
+  mas : Nat := 0                     -- the `maxammosize` option (0 = not set)
+  eol : Nat := 0                     -- 2: lines end in CRLF (the `\r` counts for the scanner)
 
 def parseSrc : String → Option SrcKind
   | "" => some .file | "file" => some .file | "inline" => some .inline | "rs" => some .readSeeker
@@ -73,8 +80,13 @@ def parseLine (kv : List (String × String)) : Option Line := do
   let cons := (getN? kv "cons").getD 1
   let shots := (getN? kv "shots").getD 0
   let pad := (getN? kv "pad").getD 0
+  let big := (getN? kv "big").getD 0
+  let bigat := (getN? kv "bigat").getD 0
+  let mas := (getN? kv "mas").getD 0
+  let eol := (getN? kv "eol").getD 0
   pure { inp := { kind, preload := getS kv "preload" == "1", b := ⟨limit, passes⟩, cancelAt := if cap = 0 then none else some cap },
-         n, cell := { limit, passes, n, cap, pad, fileN := if pick.isSome then fileN else 0 }, mode, cons, shots, pick, src, fileN, wts,
+         n, cell := { limit, passes, n, cap, pad := pad + big, fileN := if pick.isSome then fileN else 0 }, mode, cons, shots, pick, src, fileN, wts,
+         pad, big, bigat, mas, eol,
          idle := getS kv "idle" == "1", gate := (getN? kv "gate").getD 0,
          faults := { cfail := (getN? kv "cfail").getD 0, rfail := (getN? kv "rfail").getD 0,
                      rsticky := getS kv "rsticky" == "1", ofail := getS kv "ofail" == "1" } }
@@ -107,18 +119,31 @@ def showDrain (l : Line) (o : Spec.C08.Obs) (ops implEnd implRun : String) (fire
   let f := match fired with | some f => s!" fired={f}" | none => ""
   s!"delivered={o.delivered} cut={b01 o.cut}{f} run={run} end={e} seq={seqField l.cons (!o.cut)} ops={ops}"
 
+/-- the lengths of the lines of the harness' grpc/json file (c08cell.fileBody: `{"tag":"t<i>","call":"pkg.Svc.M<i>",
+"payload":{"i":<i>,"pad":"<padding>"}}`; with CRLF line ends the `\r` is part of what the scanner has to buffer) -/
+def grpcSizes (l : Line) : List Nat :=
+  (List.range l.fileN).map fun i =>
+    55 + 3 * (toString i).length + l.pad + (if i + 1 = l.bigat then l.big else 0) + (if l.eol = 2 then 1 else 0)
+
+/-- a grpc/json cell one of whose lines does not fit the scanner of the first pass: not a well-formed file for that
+configuration (`maxammosize`: "maximum number of byte in an ammo") -/
+def oversize (l : Line) : Bool :=
+  l.inp.kind == .grpcJson && (grpcSizes l).any (fun len => !fitsTok (lineMax .grpcJson l.mas 1) len)
+
 /-- the two models of a drain cell agree: `Model.C08.run` (loops as fuel functions) and the small-step machine of
 `Model.C08Mach` under the drain schedule -/
 def modelsAgree (l : Line) : Bool :=
-  if l.pick.isSome || !l.src.seekable then true else   -- the machine has neither a filter nor sources
+  if l.pick.isSome || !l.src.seekable || oversize l then true else   -- the machine has neither a filter nor sources nor sizes
   match run l.inp l.n, runMach l.inp l.n with
   | some a, some b => a.delivered == b.delivered && a.run == b.run && a.sinkClosed == b.sinkClosed
   | none, none => true
   | _, _ => false
 
 /-- the sequential model of the cell: with a chosencases option `runPick` over the whole file, for a generic JSON cell
-`runSrc` over its data source, else `run` -/
+`runSrc` over its data source, for grpc/json (round 6) the loop over lines with lengths (`runGrpcSz`, which IS `run` /
+`runPick` when every line fits: `Proofs.C08.runGrpcSz_eq_run`), else `run` -/
 def runLine (l : Line) : Option (Outcome Nat) :=
+  if l.inp.kind == .grpcJson then runGrpcSz l.inp (grpcSizes l) l.mas l.pick else
   match l.pick with
   | some p => runPick l.inp l.fileN p
   | none => if l.inp.kind == .genericJson then runSrc l.src l.inp l.n else run l.inp l.n
@@ -203,7 +228,10 @@ def handle : Handler := fun input impl =>
     if (match l.wts with | some ws => ws.length != l.fileN | none => false) then ("-", "fail:driver:one weight per scenario") else
     if l.src != .file ∧ l.inp.kind != .genericJson then ("-", "fail:driver:only the generic JSON provider has a data source") else
     if !l.src.seekable ∧ (l.mode != .drain ∨ l.faults.any) then ("-", "fail:driver:sources that cannot be rewound are only run in mode drain without faults") else
+    if (l.bigat != 0 ∨ l.mas != 0) ∧ !(l.inp.kind.hasFilter ∨ l.inp.kind == .genericJson) then ("-", "fail:driver:this kind has no sized entries") else
+    if l.bigat > l.fileN then ("-", "fail:driver:bigat beyond the last entry") else
     let ikv := parseKV impl
+    if oversize l ∧ (l.mode != .drain ∨ l.faults.any) then ("-", "skip:entry-exceeds-maxammosize") else
     match lookup ikv "construct" with
     | some e =>
       if l.faults.any then
@@ -237,6 +265,13 @@ def handle : Handler := fun input impl =>
         match parseObs ikv with
         | none => (modelDrain l [], s!"fail:crash:{impl.take 120}")
         | some o =>
+          if oversize l && (match runLine l with | some m => m.run == .errOther | none => false) then
+            -- the scanner refuses the line: `Run` reports it (predicted: how many ammo came before, closed sink)
+            let m := modelDrain l ikv
+            let ir := getS ikv "run"
+            let m := if ir.startsWith "other:" ∧ (ir.splitOn "token_too_long").length > 1 then m.replace "run=other " s!"run={ir} " else m
+            (m, "skip:entry-exceeds-maxammosize")
+          else
           if l.src.seekable then (modelDrain l ikv, Spec.C08.judge l.cell o)
           else
             -- a source that cannot be rewound: the provider reads it once (model); where the property asks for more
